@@ -49,7 +49,7 @@ class SimBase:
 
                 def writer(self, newval, pname=k):
                     self.log.debug('simulated writing %r to %s', newval, pname)
-                    self.parameters[pname].value = newval
+                    # the returned value is stored and announced by the write wrapper
                     return newval
 
                 attrs['write_' + k] = writer
